@@ -174,10 +174,14 @@ using vdrv::P;
 #else
 #    define INST_HANDLES(M)
 #endif
+// VERIF_AUTO: the file is included by a driver that the checker generates for member templates added to the library
+// after this driver was written (rules/autodrive.py); only the type definitions and helpers are wanted then
+#ifndef VERIF_AUTO
 INST_HANDLES(std::mutex)
 INST_HANDLES(std::timed_mutex)
 INST_HANDLES(std::shared_mutex)
 INST_HANDLES(std::shared_timed_mutex)
+#endif
 
 // ------------------------------------------------------- wrapper templates
 // -DVERIF_IR: the same unit must produce LLVM IR (thorough-tier cross-check), so the explicit
@@ -199,10 +203,12 @@ INST_HANDLES(std::shared_timed_mutex)
     template class gmlc::libguarded::atomic_guarded<P, M>;                      \
     template class gmlc::libguarded::lr_guarded<P, M>;                          \
     template class gmlc::libguarded::shared_locker<M>;
+#ifndef VERIF_AUTO
 INST_WRAPPERS(std::mutex)
 INST_WRAPPERS(std::timed_mutex)
 INST_WRAPPERS(std::shared_mutex)
 INST_WRAPPERS(std::shared_timed_mutex)
+#endif
 
 namespace vdrv {
 // member templates and things explicit class instantiation does not reach
@@ -336,10 +342,12 @@ void use_all(const P& p)
         (void)dg.try_lock_shared_until(tp{});
     }
 }
+#ifndef VERIF_AUTO
 template void use_all<std::mutex>(const P&);
 template void use_all<std::timed_mutex>(const P&);
 template void use_all<std::shared_mutex>(const P&);
 template void use_all<std::shared_timed_mutex>(const P&);
+#endif
 }  // namespace vdrv
 
 // -------------------------------------------------------------------- rcu
@@ -349,6 +357,7 @@ template void use_all<std::shared_timed_mutex>(const P&);
 #    define RCU_T std::string
 #endif
 using RcuT = RCU_T;
+#ifndef VERIF_AUTO
 #ifndef VERIF_IR
 template class gmlc::libguarded::rcu_list<RcuT, std::mutex, std::allocator<RcuT>>;
 template class gmlc::libguarded::rcu_list<RcuT,
@@ -359,6 +368,7 @@ template class gmlc::libguarded::rcu_guarded<
     gmlc::libguarded::rcu_list<RcuT, std::mutex, std::allocator<RcuT>>>;
 template class gmlc::libguarded::rcu_guarded<
     gmlc::libguarded::rcu_list<RcuT, std::timed_mutex, vdrv::CountingAlloc<RcuT>>>;
+#endif
 
 namespace vdrv {
 template<class L>
@@ -396,10 +406,12 @@ void use_rcu(const RcuT& v)
         (void)(*rd).begin();
     }
 }
+#ifndef VERIF_AUTO
 template void
     use_rcu<rcu_list<RcuT, std::mutex, std::allocator<RcuT>>>(const RcuT&);
 template void
     use_rcu<rcu_list<RcuT, std::timed_mutex, CountingAlloc<RcuT>>>(const RcuT&);
+#endif
 }  // namespace vdrv
 
 // ------------------------------------------------------------ concurrency
@@ -410,15 +422,20 @@ using CX = vdrv::Hostile;       // a payload whose copy may throw: what is user 
 #else
 using CX = std::string;
 #endif
+#ifndef VERIF_AUTO
 template class gmlc::concurrency::DelayedDestructor<CX>;
 template class gmlc::concurrency::DelayedDestructorSingleThread<CX>;
 template class gmlc::concurrency::DelayedObjects<CX>;
 template class gmlc::concurrency::SearchableObjectHolder<CX, int>;
+#endif
 
 DECLARE_TRIPLINE()
 DECLARE_INDEXED_TRIPLINES(3)
 
 namespace vdrv {
+#ifdef VERIF_AUTO
+template<class Never>
+#endif
 void use_concurrency()
 {
     Barrier b(2);
